@@ -46,7 +46,7 @@ def finish(prop, violations, known_hits, inconclusive):
         for msg in inconclusive[:10]: print('INCONCLUSIVE: property=%s %s' % (prop, msg))
         return 2
     if violations:
-        for msg in inconclusive[:5]: print('NOTE: property=%s (partly inconclusive) %s' % (prop, msg))
+        for msg in inconclusive[:12]: print('NOTE: property=%s (partly inconclusive) %s' % (prop, msg))
         for key, path, text in violations[:20]:
             print('VIOLATION property=%s replay=%s' % (prop, path))
             print('  ' + text)
